@@ -378,7 +378,17 @@ fn worker(args: &[String]) -> i32 {
                 continue;
             }
             let orig_events = tr.events.len();
+            // should minimising kill this process (a candidate that runs into undefined behaviour),
+            // the supervisor reports the violation as found instead of an unattributed crash
+            let pending_path = format!("{}.pending", out);
+            let pending = json!({
+                "property": v.prop, "oracle": v.oracle, "step": v.step, "op": v.op,
+                "detail": format!("{} [the worker process died while minimising this trace; reported as found]", v.detail),
+                "orig_run_index": i, "shrink_tests": 0, "orig_events": orig_events, "trace": tr.to_json(),
+            });
+            let _ = std::fs::write(&pending_path, serde_json::to_string(&pending).unwrap());
             let sh = shrink(&tr, &v, 1500);
+            let _ = std::fs::remove_file(&pending_path);
             found.push(Found {
                 v: sh.violation,
                 trace: sh.trace,
@@ -541,21 +551,30 @@ fn run_replay_child(path: &str) -> (ReplayOutcome, String) {
 }
 
 fn run_replay_child_limit(path: &str, limit_s: u64) -> (ReplayOutcome, String) {
+    // the child's output goes to a file: a pipe nobody drains would block a talkative child and
+    // make a finished replay look like a hang
+    let out_path = format!("{}.out.{}", path, std::process::id());
+    let out_file = match std::fs::File::create(&out_path) {
+        Ok(f) => f,
+        Err(_) => return (ReplayOutcome::Error, String::new()),
+    };
     let child = std::process::Command::new(self_exe())
         .arg("replay-inner")
         .arg(path)
-        .stdout(std::process::Stdio::piped())
+        .stdout(std::process::Stdio::from(out_file))
         .stderr(std::process::Stdio::null())
         .spawn();
     let o = match child {
         Err(_) => return (ReplayOutcome::Error, String::new()),
         Ok(c) => wait_limited(c, limit_s),
     };
+    let captured = std::fs::read_to_string(&out_path).unwrap_or_default();
+    let _ = std::fs::remove_file(&out_path);
     match o {
         // a replay that does not terminate reproduces a hang
         None => (ReplayOutcome::Crashed, format!("REPRODUCED (the replay did not terminate within {} s and was killed)\n", limit_s)),
         Some(o) => {
-            let s = String::from_utf8_lossy(&o.stdout).to_string();
+            let s = captured;
             match o.status.code() {
                 Some(1) => (ReplayOutcome::Reproduced, s),
                 Some(0) => (ReplayOutcome::NotReproduced, s),
@@ -623,6 +642,12 @@ fn shrink_crash(v: &Value, tmp: &str) -> Value {
     best
 }
 
+/// the violation a dead worker was minimising (see `worker`)
+fn read_pending(out: &str) -> Option<Value> {
+    let t = std::fs::read_to_string(format!("{}.pending", out)).ok()?;
+    serde_json::from_str::<Value>(&t).ok()
+}
+
 fn read_progress(path: &str) -> Option<(u64, u64)> {
     let s = std::fs::read_to_string(path).ok()?;
     let mut it = s.split_whitespace();
@@ -668,13 +693,40 @@ fn check(args: &[String]) -> i32 {
 
     // ---- spawn the workers ---------------------------------------------------------------
     let per = runs.div_ceil(nworkers);
-    let mut children = Vec::new();
+    let mut slices: Vec<(u64, u64)> = Vec::new();
     for w in 0..nworkers {
         let from = w * per;
         let to = ((w + 1) * per).min(runs);
         if from >= to {
             break;
         }
+        slices.push((from, to));
+    }
+    let mut counters: BTreeMap<String, u64> = BTreeMap::new();
+    let mut distinct: BTreeSet<u64> = BTreeSet::new();
+    let (mut t_runs, mut t_exec, mut t_events) = (0u64, 0u64, 0u64);
+    let mut violations: Vec<Value> = Vec::new();
+    let mut fingerprints: BTreeMap<String, u64> = BTreeMap::new();
+    let mut other_fp: BTreeMap<String, u64> = BTreeMap::new();
+    let mut samples: Vec<Value> = Vec::new();
+    let mut harness_errors: Vec<String> = Vec::new();
+    let mut digest = 0u64;
+    // A worker that dies (or is killed) inside run i is replaced by one that continues at run i+1,
+    // so that one crashing history does not cost the rest of its slice.
+    // (the longest legitimate run, a 2^16-entry configuration of the thorough tier, takes seconds)
+    let stall_s = std::env::var("CACHESIM_STALL_S").ok().and_then(|s| s.parse::<u64>().ok()).unwrap_or(match tier {
+        Tier::Quick => 45,
+        Tier::Thorough => 240,
+    });
+    let mut next_w = 0u64;
+    let mut rounds = 0u32;
+    let mut respawned = 0u64;
+    while !slices.is_empty() && rounds < 200 {
+    rounds += 1;
+    let mut children = Vec::new();
+    for (from, to) in std::mem::take(&mut slices) {
+        let w = next_w;
+        next_w += 1;
         let out = format!("{}/w{}.json", tmp, w);
         let child = std::process::Command::new(self_exe())
             .args([
@@ -705,25 +757,11 @@ fn check(args: &[String]) -> i32 {
             }
         }
     }
-    let mut counters: BTreeMap<String, u64> = BTreeMap::new();
-    let mut distinct: BTreeSet<u64> = BTreeSet::new();
-    let (mut t_runs, mut t_exec, mut t_events) = (0u64, 0u64, 0u64);
-    let mut violations: Vec<Value> = Vec::new();
-    let mut fingerprints: BTreeMap<String, u64> = BTreeMap::new();
-    let mut other_fp: BTreeMap<String, u64> = BTreeMap::new();
-    let mut samples: Vec<Value> = Vec::new();
-    let mut harness_errors: Vec<String> = Vec::new();
-    let mut digest = 0u64;
     // stderr of a worker is small (panic hook is quiet); draining it after exit is safe
     let hard_limit = deadline_s + 60;
     let t0 = Instant::now();
     // stall monitor: a worker whose progress file (rewritten before every run) has not changed for
     // STALL_S seconds is stuck inside one run: kill it now instead of waiting for the deadline
-    // (the longest legitimate run, a 2^16-entry configuration of the thorough tier, takes seconds)
-    let stall_s = std::env::var("CACHESIM_STALL_S").ok().and_then(|s| s.parse::<u64>().ok()).unwrap_or(match tier {
-        Tier::Quick => 45,
-        Tier::Thorough => 240,
-    });
     let mut stalled: BTreeSet<u64> = BTreeSet::new();
     {
         let mut last: Vec<(String, Instant)> = children.iter().map(|_| (String::new(), Instant::now())).collect();
@@ -759,14 +797,25 @@ fn check(args: &[String]) -> i32 {
             // a worker that had to be killed hung inside one run (an operation that never returns
             // and calls no user code escapes the in-process watchdog)
             let progress = read_progress(&format!("{}.progress", out));
+            if let Some((idx, _)) = progress {
+                if idx + 1 < to {
+                    slices.push((idx + 1, to));
+                    respawned += 1;
+                }
+            }
+            if let Some(p) = read_pending(&out) {
+                violations.push(p);
+                continue;
+            }
             if let Some((idx, fault)) = progress {
                 let mut t = gen::gen(&prop, seed, idx, tier);
                 if fault != 0 {
                     t.faults = vec![fault];
                 }
+                let tag = if prop == "C18" && fault != 0 && crate::runner::fault_in_rehash(&t) { crate::runner::REHASH_TAG } else { "" };
                 violations.push(json!({
                     "property": prop.as_str(),
-                    "oracle": "process_hang", "step": -1, "op": "?", "class": "crash",
+                    "oracle": format!("process_hang{}", tag), "step": -1, "op": "?", "class": "crash",
                     "detail": format!("worker process did not finish run {} (slice {}..{}) within the wall-clock limit and was killed: an operation does not terminate", idx, from, to),
                     "orig_run_index": idx, "shrink_tests": 0, "orig_events": t.events.len(),
                     "trace": t.to_json(),
@@ -787,6 +836,16 @@ fn check(args: &[String]) -> i32 {
         if crashed || status.code() != Some(0) {
             // a worker killed by a signal (wild pointer, double-panic abort) is itself a finding
             let progress = read_progress(&format!("{}.progress", out));
+            if let (true, Some((idx, _))) = (crashed, progress) {
+                if idx + 1 < to {
+                    slices.push((idx + 1, to));
+                    respawned += 1;
+                }
+            }
+            if let (true, Some(p)) = (crashed, read_pending(&out)) {
+                violations.push(p);
+                continue;
+            }
             let stderr = o.as_ref().map(|o| String::from_utf8_lossy(&o.stderr).to_string()).unwrap_or_default();
             match (crashed, progress) {
                 (true, Some((idx, fault))) => {
@@ -794,9 +853,10 @@ fn check(args: &[String]) -> i32 {
                     if fault != 0 {
                         t.faults = vec![fault];
                     }
+                    let tag = if prop == "C18" && fault != 0 && crate::runner::fault_in_rehash(&t) { crate::runner::REHASH_TAG } else { "" };
                     violations.push(json!({
                         "property": prop.as_str(),
-                        "oracle": "process_crash", "step": -1, "op": "?", "class": "crash",
+                        "oracle": format!("process_crash{}", tag), "step": -1, "op": "?", "class": "crash",
                         "detail": format!("worker process died by a signal while executing run {} (slice {}..{}): {}", idx, from, to, stderr.lines().last().unwrap_or("")),
                         "orig_run_index": idx, "shrink_tests": 0, "orig_events": t.events.len(),
                         "trace": t.to_json(),
@@ -860,6 +920,10 @@ fn check(args: &[String]) -> i32 {
             }
         }
     }
+    }
+    if respawned > 0 {
+        counters.insert("workers_replaced_after_a_crash_or_hang".into(), respawned);
+    }
     // ---- violations: dedupe, write replay, confirm in a fresh process ------------------------
     let known = load_known(&known_path);
     let mut seen: BTreeSet<String> = BTreeSet::new();
@@ -879,14 +943,19 @@ fn check(args: &[String]) -> i32 {
             continue;
         }
         // open known findings suppress nothing but themselves
-        let k = known.iter().find(|k| k["status"] == "open" && k["fingerprint"].as_str() == Some(fp.as_str()));
+        // (an entry names either one fingerprint or, with "oracle_suffix", the class of injection
+        // points its failing histories have in common)
+        let k = known.iter().find(|k| {
+            k["status"] == "open"
+                && k["property"].as_str() == v["property"].as_str()
+                && (k["fingerprint"].as_str() == Some(fp.as_str())
+                    || k["oracle_suffix"].as_str().map(|s| !s.is_empty() && v["oracle"].as_str().unwrap_or("").ends_with(s)).unwrap_or(false))
+        });
         if let Some(k) = k {
-            known_hits.push(format!(
-                "KNOWN-FINDING: property={} {} ({})",
-                v["property"].as_str().unwrap_or(""),
-                k["what"].as_str().unwrap_or(""),
-                fp
-            ));
+            let line = format!("KNOWN-FINDING: property={} {} {}", v["property"].as_str().unwrap_or(""), k["id"].as_str().unwrap_or(""), k["what"].as_str().unwrap_or(""));
+            if !known_hits.contains(&line) {
+                known_hits.push(line);
+            }
             continue;
         }
         let shrunk;
@@ -915,7 +984,7 @@ fn check(args: &[String]) -> i32 {
                     unconfirmed_uncontrolled += 1;
                     println!("INFO violation {} seen in an uncontrolled-hasher run did not replay in a fresh process; not reported", fp);
                     let _ = std::fs::remove_file(&path);
-                } else if v["oracle"].as_str() == Some("process_hang") && matches!(outc, ReplayOutcome::NotReproduced) {
+                } else if v["oracle"].as_str().map(|o| o.starts_with("process_hang")).unwrap_or(false) && matches!(outc, ReplayOutcome::NotReproduced) {
                     // the run the stall monitor gave up on completes (without any violation) when
                     // replayed: it was slow, not stuck. Not a violation; the rest of that worker's
                     // slice was not executed, which the run count of the evidence shows.
